@@ -3,8 +3,9 @@ package main
 import (
 	"fmt"
 	"os"
+	"path/filepath"
+	"strconv"
 
-	"github.com/spf13/afero"
 	"verif/harness/sut"
 )
 
@@ -12,80 +13,35 @@ func main() {
 	dir, _ := os.MkdirTemp("", "dbg")
 	defer os.RemoveAll(dir)
 	ks := sut.NewKeySet("/verif/.cache/keys")
-	cfg := sut.Config{RecordSize: 20}
+	cfg := sut.Config{RecordSize: 2, Signature: "minisign"}
 	inst, err := sut.Open(dir, "", cfg, ks, nil)
 	if err != nil {
 		panic(err)
 	}
 	fs := inst.FS
-	show := func(tag string) {
-		v, err := sut.Walk(fs, sut.ViewOpts{ReadContent: true, KeepData: true})
-		fmt.Println("--", tag, err)
-		for _, p := range v.SortedPaths() {
-			fmt.Printf("   %s %s %q\n", p, v[p].Kind, string(v[p].Data))
-		}
-		rb, ierr, err := sut.Rebuilt(inst.Drive, dir+"/rb-"+tag, cfg, ks)
-		if err != nil || ierr != nil {
-			fmt.Println("   rebuild:", err, ierr)
-			return
-		}
-		v2, _ := sut.Walk(rb.FS, sut.ViewOpts{ReadContent: true, KeepData: true})
-		for _, d := range sut.DiffViews(v, v2, "rebuilt", false) {
-			fmt.Println("   DIFF running/rebuilt:", d)
-		}
-		rb.Close()
+	fmt.Println(fs.Mkdir("/d", 0o755))
+	f, _ := fs.Create("/d/f")
+	buf := make([]byte, 1581); for i := range buf { buf[i] = byte(i*7 + 1) }; f.Write(buf)
+	fmt.Println(f.Close())
+	fmt.Println(fs.Mkdir("/e", 0o755))
+	fmt.Println(fs.Chmod("/d/f", 0o600))
+	inst.Close()
+	sc, _ := sut.Scan(inst.Drive, cfg, ks, false)
+	for _, r := range sc.Recs {
+		fmt.Printf("scan off=%d hb=%d db=%d %q %s\n", r.Off, r.HB, r.DB, r.Name, r.Action)
 	}
-	wf := func(p, s string) {
-		f, err := fs.OpenFile(p, os.O_RDWR|os.O_CREATE|os.O_TRUNC, 0o666)
-		if err != nil {
-			fmt.Println("wf", err)
-			return
+	off, _ := strconv.Atoi(os.Args[1])
+	data, _ := os.ReadFile(inst.Drive)
+	data[off] ^= 0x20
+	os.WriteFile(inst.Drive, data, 0o644)
+	rb, ierr, err := sut.Rebuilt(inst.Drive, filepath.Join(dir, "rb"), cfg, ks)
+	fmt.Println("rebuild:", ierr, err)
+	if rb != nil {
+		rows, _ := sut.Rows(rb.DB)
+		for _, r := range rows {
+			fmt.Printf("rebld %-6q del=%v size=%d rec=%d blk=%d lk=%d/%d\n", r.Name, r.Deleted, r.Size, r.Record, r.Block, r.LKRecord, r.LKBlock)
 		}
-		f.Write([]byte(s))
-		fmt.Println("writefile", p, f.Close())
-	}
-	var h afero.File
-	switch os.Args[1] {
-	case "rename":
-		wf("/f", "abc")
-		h, err = fs.OpenFile("/f", os.O_RDWR|os.O_APPEND, 0)
-		fmt.Println("open", err)
-		fmt.Println("rename", fs.Rename("/f", "/g"))
-		_, err = h.Write([]byte("X"))
-		fmt.Println("write", err)
-		fmt.Println("close", h.Close())
-		show("afterclose")
-		fmt.Println("mkdir", fs.Mkdir("/n", 0o755))
-		show("aftermkdir")
-	case "remove":
-		fmt.Println("mkdir", fs.Mkdir("/d", 0o755))
-		wf("/d/f", "abc")
-		h, err = fs.OpenFile("/d/f", os.O_RDWR|os.O_APPEND, 0)
-		fmt.Println("open", err)
-		fmt.Println("removeall", fs.RemoveAll("/d"))
-		_, err = h.Write([]byte("X"))
-		fmt.Println("write", err)
-		fmt.Println("close", h.Close())
-		show("afterclose")
-		fmt.Println("mkdir", fs.Mkdir("/n", 0o755))
-		show("aftermkdir")
-	case "recreate":
-		wf("/f", "abc")
-		h, err = fs.OpenFile("/f", os.O_RDWR|os.O_APPEND, 0)
-		fmt.Println("rename", fs.Rename("/f", "/g"))
-		wf("/f", "new")
-		_, err = h.Write([]byte("X"))
-		fmt.Println("write", err)
-		fmt.Println("close", h.Close())
-		show("afterclose")
-	case "sync":
-		wf("/f", "abc")
-		h, err = fs.OpenFile("/f", os.O_RDWR|os.O_APPEND, 0)
-		_, err = h.Write([]byte("X"))
-		fmt.Println("write", err, "sync", h.Sync())
-		show("aftersync")
-		_, err = h.Write([]byte("Y"))
-		fmt.Println("write", err, "close", h.Close())
-		show("afterclose")
+		b, err := sut.ReadAll(rb.FS, "/d/f")
+		fmt.Println("read /d/f:", len(b), err)
 	}
 }
